@@ -102,6 +102,40 @@ def multi(rng, aligned):
     return {"kind": "multi", "aligned": aligned, "banks": len(banks), "src": "\n".join(src) + "\n"}
 
 
+def gappy(rng, banked):
+    """labels, reservations, #align and forward #addr jumps between the data: blocks separated by
+    gaps inside one bank, empty spans (labels) at the start, the end and in front of gaps"""
+    src = []
+    if banked:
+        src.append("#bankdef b0\n{\n    #bits 8\n    #addr 0x%x\n    #size 0x200\n    #outp 0\n}" % rng.choice([0, 0x100, 0x8000]))
+        base = 0
+    addr, n = 0, 0
+    for _ in range(rng.randrange(2, 8)):
+        c = rng.random()
+        if c < 0.35:
+            src.append("lbl%d:" % n)
+            n += 1
+        elif c < 0.55:
+            jump = rng.choice([1, 2, 7, 16, 17, 64, 100])
+            addr += jump
+            if addr >= 0x1f0:
+                break
+            src.append("#res %d" % jump)
+        elif c < 0.65:
+            src.append("#align %d" % rng.choice([16, 32, 64, 128]))
+            addr = -1
+        else:
+            nb = 8 * rng.choice([1, 1, 2, 5, 16, 17])
+            src += data_lines(rng, nb)
+            addr = -1
+        if rng.random() < 0.3:
+            src.append("lbl%d:" % n)
+            n += 1
+    if rng.random() < 0.5:
+        src.append("lbl%d:" % n)
+    return {"kind": "gappy", "src": "\n".join(src) + "\n"}
+
+
 def boundary_lengths():
     """lengths around the line / record sizes of the formats (64, 128, 256 bits) and the upper bound"""
     s = set()
@@ -214,6 +248,8 @@ def run_c11(ck):
             progs.append(single(rng, n, content))
     for i in range(nmulti):
         progs.append(multi(rng, aligned=(i % 2 == 0)))
+    for i in range(nmulti * 2):
+        progs.append(gappy(rng, banked=(i % 3 == 0)))
 
     fstrs = [f[0] for f in FORMATS]
     jobs = [{"mode": "asm", "files": {"main.asm": p["src"]}, "roots": ["main.asm"], "formats": fstrs,
@@ -221,7 +257,7 @@ def run_c11(ck):
     results = common.run_jobs(jobs, ck.wd + "/jobs")
 
     events, owner = [], {}
-    stats = {"programs": len(progs), "single": 0, "multi": 0, "multi_block_outputs": 0,
+    stats = {"programs": len(progs), "single": 0, "multi": 0, "gappy": 0, "multi_block_outputs": 0,
              "not_assembled": 0, "unjudged_unaddressable_block": 0}
     seen_lengths = set()
     for i, (p, r) in enumerate(zip(progs, results)):
